@@ -12,6 +12,7 @@ import (
 
 	sdkmath "cosmossdk.io/math"
 	codectypes "github.com/cosmos/cosmos-sdk/codec/types"
+	authtypes "github.com/cosmos/cosmos-sdk/x/auth/types"
 	sdk "github.com/cosmos/cosmos-sdk/types"
 	"github.com/ethereum/go-ethereum/common"
 	ethcrypto "github.com/ethereum/go-ethereum/crypto"
@@ -301,6 +302,15 @@ func (e BridgeEngine) setupSteps(r *Run, st *BridgeSt) []Step {
 		}
 	}
 	out = append(out, Step{Kind: "block", DtMs: 5000, N: 1, Txs: bonds})
+	if r.Prop == "C03" {
+		// a contract that records value and call data of every call, so that the data / memo / value
+		// fields of an executed bridge call are observable; the callback sender gets funds for the values
+		cb := common.BytesToAddress(authtypes.NewModuleAddress(cctypes.ModuleName))
+		out = append(out, Step{Kind: "block", DtMs: 5000, N: 1, Txs: []Tx{
+			{K: "eth_call", S: "user/0", A: A("to", "", "data", hex.EncodeToString(InitCode(RecorderRuntime())), "value", "0"), Gas: 3_000_000},
+			{K: "eth_call", S: "user/0", A: A("to", cb.Hex(), "data", "", "value", "1000000000000000000"), Gas: 300_000},
+		}})
+	}
 	// 2. external contracts are deployed with the first oracle set
 	for _, c := range st.Chains {
 		out = append(out, Step{Kind: "ext", A: A("chain", c.Name, "op", "init")})
@@ -791,7 +801,7 @@ func (e BridgeEngine) applyExt(r *Run, s *Step, o *Outcome) {
 		to := common.HexToAddress(s.A.Str("to"))
 		data, _ := hex.DecodeString(s.A.Str("data"))
 		memo, _ := hex.DecodeString(s.A.Str("memo"))
-		if _, err := ext.BridgeCall(sender, refund, to, sender, toks, amts, data, memo, big.NewInt(0)); err != nil {
+		if _, err := ext.BridgeCall(sender, refund, to, sender, toks, amts, data, memo, s.A.Big("value")); err != nil {
 			o.Note = err.Error()
 		}
 	}
@@ -920,6 +930,9 @@ func (e BridgeEngine) applyGov(r *Run, s *Step, o *Outcome) {
 		for _, c := range st.Chains {
 			aliases = append(aliases, cctypes.NewBridgeDenom(c.Name, ExtAddrStr(c.Name, tokenContract(c.Name, s.A.Str("symbol")))))
 		}
+		if s.A.Has("aliases") {
+			aliases = strings.Split(s.A.Str("aliases"), ",")
+		}
 		md := fxtypes.GetCrossChainMetadataManyToOne(s.A.Str("symbol")+" token", s.A.Str("symbol"), uint32(s.A.Int("decimals")), aliases...)
 		msgs = append(msgs, &erc20types.MsgRegisterCoin{Authority: auth, Metadata: md})
 	case "update_oracles":
@@ -1024,6 +1037,29 @@ func (e BridgeEngine) applyActorFault(r *Run, s *Step, o *Outcome) {
 // fields are incremented, booleans flipped, the first element of a slice is mutated.
 func mutateClaim(claim cctypes.ExternalClaim, field, val string) error {
 	rv := reflect.ValueOf(claim).Elem()
+	if field == "resplit" {
+		// val = "FieldA:FieldB:k": move the last k characters of A's rendering to the front of B's
+		var fa, fb string
+		var k int
+		parts := strings.Split(val, ":")
+		if len(parts) != 3 {
+			return fmt.Errorf("resplit spec")
+		}
+		fa, fb = parts[0], parts[1]
+		fmt.Sscan(parts[2], &k)
+		a, b := rv.FieldByName(fa), rv.FieldByName(fb)
+		if !a.IsValid() || !b.IsValid() {
+			return fmt.Errorf("resplit fields")
+		}
+		sa, sb := renderField(a), renderField(b)
+		if k <= 0 || k >= len(sa) {
+			return fmt.Errorf("resplit k")
+		}
+		if err := parseField(a, sa[:len(sa)-k]); err != nil {
+			return err
+		}
+		return parseField(b, sa[len(sa)-k:]+sb)
+	}
 	f := rv.FieldByName(field)
 	if !f.IsValid() || !f.CanSet() {
 		return fmt.Errorf("no field %s", field)
@@ -1069,6 +1105,45 @@ func mutateValue(f reflect.Value, val string) error {
 		return fmt.Errorf("kind %s", f.Kind())
 	}
 	return nil
+}
+
+func renderField(f reflect.Value) string {
+	switch f.Kind() {
+	case reflect.String:
+		return f.String()
+	case reflect.Uint64, reflect.Uint32:
+		return fmt.Sprint(f.Uint())
+	case reflect.Struct:
+		if i, ok := f.Addr().Interface().(*sdkmath.Int); ok && !i.IsNil() {
+			return i.String()
+		}
+	}
+	return ""
+}
+
+func parseField(f reflect.Value, s string) error {
+	switch f.Kind() {
+	case reflect.String:
+		f.SetString(s)
+		return nil
+	case reflect.Uint64, reflect.Uint32:
+		var n uint64
+		if _, err := fmt.Sscan(s, &n); err != nil || fmt.Sprint(n) != s {
+			return fmt.Errorf("not a canonical number")
+		}
+		f.SetUint(n)
+		return nil
+	case reflect.Struct:
+		if i, ok := f.Addr().Interface().(*sdkmath.Int); ok {
+			n, ok2 := sdkmath.NewIntFromString(s)
+			if !ok2 || n.String() != s {
+				return fmt.Errorf("not a canonical integer")
+			}
+			*i = n
+			return nil
+		}
+	}
+	return fmt.Errorf("unsupported field kind")
 }
 
 // claimFields lists the mutable fields of a claim type (everything except the identity of
